@@ -116,23 +116,28 @@ let judge _id (c : cursor) (r : cursor) : bool * string =
     if List.length prob <> n || List.length alias_i <> n then oracle_fail "alias_mass" csite "table of the wrong size";
     List.iter (fun a -> if a < 0 || a >= n then oracle_fail "alias_mass" csite "alias out of range") alias_i;
     let alias = List.map nat_of_int alias_i in
+    (* sum p = 1: exact masses.  Otherwise (any vector isProbability accepts): masses within |sum p - 1|
+       (alias_mass_slack) and mass zero on indices of probability zero (alias_support). *)
+    let slack = q_abs (q_sub (qsum p) q_one) in
+    let masses = List.mapi (fun i _ -> alias_mass prob alias (nat_of_int i)) p in
+    List.iteri (fun i pi ->
+        let mi = List.nth masses i in
+        if q_eq pi q_zero && not (q_eq mi q_zero) then
+          oracle_fail "alias_support" csite ("index " ^ string_of_int i ^ " has probability 0 but mass " ^ string_of_q mi ^ " in the table; p = " ^ str_qs p)) p;
     if exact then begin
-      if not (alias_table_ok p prob alias) then
-        (* the known finding covers the tables the in-place construction as it stands is modelled to
-           build ([vose_cur]); any other wrong table is reported under a site of its own *)
-        let is_cur = (match vose_cur p with Some (cp, ca) -> vec_eq cp prob && nats_eq ca alias | None -> false) in
-        oracle_fail "alias_mass" (if is_cur then csite else csite ^ "#unmodelled") ("masses " ^ str_qs (List.mapi (fun i _ -> alias_mass prob alias (nat_of_int i)) p) ^ " for p = " ^ str_qs p)
+      let ok = if q_eq slack q_zero then alias_table_ok p prob alias else alias_table_slack_ok p prob alias in
+      if not ok then
+        oracle_fail (if q_eq slack q_zero then "alias_mass" else "alias_mass_slack") csite ("masses " ^ str_qs masses ^ " for p = " ^ str_qs p)
     end else
       List.iteri (fun i pi ->
-          let mi = alias_mass prob alias (nat_of_int i) in
-          if not (q_le (q_abs (q_sub mi pi)) tol9) then
-            oracle_fail "alias_mass" csite ("index " ^ string_of_int i ^ " has mass " ^ string_of_float (float_of_q mi) ^ " instead of " ^ string_of_float (float_of_q pi))) p;
+          let mi = List.nth masses i in
+          if not (q_le (q_abs (q_sub mi pi)) (q_add slack tol9)) then
+            oracle_fail (if q_le slack tol9 then "alias_mass" else "alias_mass_slack") csite ("index " ^ string_of_int i ^ " has mass " ^ string_of_float (float_of_q mi) ^ " instead of " ^ string_of_float (float_of_q pi))) p;
     (* C: table (exact regime) *)
     if exact then begin
       let (fp, fa) = vose_fix p in
       let same_fix = vec_eq fp prob && nats_eq fa alias in
-      let same_cur = (match vose_cur p with Some (cp, ca) -> vec_eq cp prob && nats_eq ca alias | None -> false) in
-      if not (same_fix || same_cur) then
+      if not same_fix then
         disagree "vose_table" csite ("impl prob " ^ str_qs prob ^ " alias " ^ str_nats alias ^ " ; repaired model prob " ^ str_qs fp ^ " alias " ^ str_nats fa)
     end;
     let m = next_int r in
@@ -187,48 +192,80 @@ let judge _id (c : cursor) (r : cursor) : bool * string =
     let so = qsum out in
     if not (nonnegb out && q_le (q_abs (q_sub so q_one)) (q_add eps_small tol9)) then
       oracle_fail "project_valid" site ("output " ^ str_qs out ^ " sums to " ^ string_of_q so);
-    (* C: the repaired code, or the code as it stands where both meet the property *)
-    if not (vec_close tol9 (project_fix v) out || vec_close tol9 (project_cur v) out) then
+    (* C: the repaired code (committed in /repo) *)
+    if not (vec_close tol9 (project_fix v) out) then
       disagree "project" site ("impl " ^ str_qs out ^ " model " ^ str_qs (project_fix v));
     (List.length v > 1, "proj." ^ tag)
-  (* ------------------------------------------------------------------ sampleSR / sampleSOR *)
+  (* ------------------------------------------------------------------ sampleSR / sampleSOR / sampleOR *)
   | "sr" ->
     let variant = next c in
     let ns = next_int c in let na = next_int c in let no = next_int c in
     let rec take k f = if k = 0 then [] else let x = f () in x :: take (k - 1) f in
     let vecn n = take n (fun () -> next_q c) in
-    let p = take na (fun () -> take ns (fun () -> vecn ns)) in
-    let rw = take ns (fun () -> vecn na) in
-    let ob = take na (fun () -> take ns (fun () -> vecn no)) in
-    let s = next_nat c in let a = next_nat c in let m = next_int c in
+    let p_in = take na (fun () -> take ns (fun () -> vecn ns)) in
+    let r_in = take ns (fun () -> vecn na) in
+    let ob_in = take na (fun () -> take ns (fun () -> vecn no)) in
+    let s = next_nat c in let a = next_nat c in
+    let us = next_qs c in
+    let is_pomdp = String.length variant > 5 && String.sub variant 0 5 = "pomdp" in
+    let mdp_sparse = (variant = "mdp.s" || variant = "pomdp.ds" || variant = "pomdp.ss") in
+    let pomdp_sparse = (variant = "pomdp.sd" || variant = "pomdp.ss") in
+    (* the tables the classes store: sparse classes keep only entries above 1e-6; the expected reward
+       is R(s,a) times the stored row mass *)
+    let p = if mdp_sparse then List.map (List.map drop_small) p_in else p_in in
+    let ob = if pomdp_sparse then List.map (List.map drop_small) ob_in else ob_in in
+    let rw = List.mapi (fun si row -> List.mapi (fun ai x -> q_mul x (qsum (List.nth (List.nth p ai) si))) row) r_in in
     let md = { nS = nat_of_int ns; nA = nat_of_int na; p = p; r = rw; gam = q_of_ints 1 2 } in
-    if not (wf_mdpb md) then failwith "sr: ill-formed model";
     let pmd = { pm = md; nO = nat_of_int no; ob = ob } in
-    let site = (match variant with "dense" -> "MDP::Model::sampleSR" | "sparse" -> "MDP::SparseModel::sampleSR" | _ -> "POMDP::Model::sampleSOR") in
+    let site = (match variant with
+        | "mdp.d" -> "MDP::Model::sampleSR" | "mdp.s" -> "MDP::SparseModel::sampleSR"
+        | "pomdp.dd" | "pomdp.ds" -> "POMDP::Model" | _ -> "POMDP::SparseModel") in
     if (not (at_end r)) && is_crash (peek r) then oracle_fail "no_UB" site "abnormal termination";
-    if next_int r <> m then failwith "sr: sample count";
+    (* the model's own rows, as returned by its getters *)
+    let trow_i = next_qs r in let rew_i = next_qs r in
+    let orows_i = if is_pomdp then take ns (fun () -> next_qs r) else [] in
+    let nsamp = next_int r in
     let unit_ok u = q_le q_zero u && q_lt u q_one in
-    for _ = 1 to m do
-      let u1 = next_q r in let k1 = next_idx r in let rew = next_q r in
-      if not (unit_ok u1) then oracle_fail "uniform_in_unit_interval" "uniform_real_distribution" (string_of_q u1);
-      (* O: the next state lies in the interval of the model's own row, the reward is R(s,a) *)
-      if k1 < 0 || k1 >= ns then oracle_fail "sample_sr_follows_model" site "next state out of range";
-      if not (dense_selb (trow md s a) u1 (nat_of_int k1)) then
-        oracle_fail "sample_sr_follows_model" site ("u=" ^ string_of_q u1 ^ " gave next state " ^ string_of_int k1 ^ " outside its interval of the transition row");
-      if not (q_eq rew (List.nth (List.nth rw (ni s)) (ni a))) then oracle_fail "sample_sr_follows_model" site "reward is not R(s,a)";
-      if variant = "pomdp" then begin
-        let u2 = next_q r in let k2 = next_idx r in
-        if not (unit_ok u2) then oracle_fail "uniform_in_unit_interval" "uniform_real_distribution" (string_of_q u2);
-        if k2 < 0 || k2 >= no then oracle_fail "sample_sor_follows_model" site "observation out of range";
-        if not (dense_selb (orow pmd (nat_of_int k1) a) u2 (nat_of_int k2)) then
-          oracle_fail "sample_sor_follows_model" site ("u=" ^ string_of_q u2 ^ " gave observation " ^ string_of_int k2 ^ " outside its interval of the observation row");
-        let ((ms1, mo), mr) = sample_sor pmd s a u1 u2 in
-        if ni ms1 <> k1 || ni mo <> k2 || not (q_eq mr rew) then disagree "sample_sor" site "model/impl differ"
-      end else begin
+    let chk_u u_req u = check_replay u_req u; if not (unit_ok u) then oracle_fail "uniform_in_unit_interval" "uniform_real_distribution" (string_of_q u) in
+    let chk_state site u k =
+      if k < 0 || k >= ns then oracle_fail "sample_sr_in_range" site ("next state " ^ idx_str k ^ " out of range for u=" ^ string_of_q u);
+      if not (dense_selb trow_i u (nat_of_int k)) then
+        oracle_fail "sample_sr_follows_model" site ("u=" ^ string_of_q u ^ " gave next state " ^ string_of_int k ^ " outside its interval of the model's own transition row") in
+    let chk_obs site s1 u k =
+      if k < 0 || k >= no then oracle_fail "sample_sor_in_range" site ("observation " ^ idx_str k ^ " out of range (O=" ^ string_of_int no ^ ") for u=" ^ string_of_q u);
+      if not (dense_selb (List.nth orows_i s1) u (nat_of_int k)) then
+        oracle_fail "sample_sor_follows_model" site ("u=" ^ string_of_q u ^ " gave observation " ^ string_of_int k ^ " outside its interval of the model's own observation row") in
+    let chk_rew site s1 rew = if not (q_eq rew (List.nth rew_i s1)) then oracle_fail "sample_sr_follows_model" site "reward is not the model's own expected reward" in
+    let usr = ref us in
+    let pop () = match !usr with x :: t -> usr := t; x | [] -> failwith "sr: draws exhausted" in
+    if not is_pomdp then begin
+      if nsamp <> List.length us then failwith "sr: sample count";
+      for _ = 1 to nsamp do
+        let u_req = pop () in
+        let u1 = next_q r in let k1 = next_idx r in let rew = next_q r in
+        chk_u u_req u1; chk_state site u1 k1; chk_rew site k1 rew;
         let (ms1, mr) = sample_sr md s a u1 in
-        if ni ms1 <> k1 || not (q_eq mr rew) then disagree "sample_sr" site ("u=" ^ string_of_q u1 ^ " impl " ^ string_of_int k1 ^ " model " ^ string_of_int (ni ms1))
-      end
-    done;
+        if ni ms1 <> k1 then disagree "sample_sr" site ("u=" ^ string_of_q u1 ^ " impl " ^ string_of_int k1 ^ " model " ^ string_of_int (ni ms1));
+        if not (q_eq mr rew) then disagree "sample_sr" site "reward differs from R(s,a) * stored row mass"
+      done
+    end else begin
+      if 3 * nsamp <> List.length us then failwith "sr: sample count";
+      for _ = 1 to nsamp do
+        let r1 = pop () in let r2 = pop () in let r3 = pop () in
+        let u1 = next_q r in let k1 = next_idx r in let rew = next_q r in let u2 = next_q r in let k2 = next_idx r in
+        chk_u r1 u1; chk_u r2 u2;
+        chk_state (site ^ "::sampleSOR") u1 k1; chk_rew (site ^ "::sampleSOR") k1 rew; chk_obs (site ^ "::sampleSOR") k1 u2 k2;
+        let u3 = next_q r in let k3 = next_idx r in let rew3 = next_q r in
+        chk_u r3 u3; chk_obs (site ^ "::sampleOR") k1 u3 k3; chk_rew (site ^ "::sampleOR") k1 rew3;
+        let ((ms1, mo), mr) = sample_sor pmd s a u1 u2 in
+        if ni ms1 <> k1 || ni mo <> k2 || not (q_eq mr rew) then disagree "sample_sor" (site ^ "::sampleSOR") "model/impl differ";
+        let (mo3, mr3) = sample_or pmd s a (nat_of_int k1) u3 in
+        if ni mo3 <> k3 || not (q_eq mr3 rew3) then disagree "sample_or" (site ^ "::sampleOR") "model/impl differ"
+      done
+    end;
+    (* C: the rows the getters return are the rows the model of the class stores *)
+    if not (vec_eq trow_i (trow md s a)) then disagree "stored_transition_row" site ("impl " ^ str_qs trow_i ^ " model " ^ str_qs (trow md s a));
+    if is_pomdp then List.iteri (fun s1 row -> if not (vec_eq row (orow pmd (nat_of_int s1) a)) then disagree "stored_observation_row" site "differ") orows_i;
     (ns > 1, "sr." ^ variant)
   | k -> failwith ("unknown case kind " ^ k)
 
